@@ -248,6 +248,17 @@ def given_names(rng, n):
     return rng.sample(pool, n)
 
 
+def population_search(ctx):
+    """failing-input search over a fresh population (also used when an exception raised inside the implementation
+    ended the correspondence run early)"""
+    for i in range(400):
+        c = st.gen_case(ctx.rng, ORACLE_KINDS, max_depth=2, cap=30, opaque=True)
+        why = oracle(c)
+        if why:
+            ctx.fail(why, c, {'kinds': sorted(pipes.kinds_in(c['spec']))})
+            return
+
+
 def run(ctx):
     ctx.rule = ('random trees of all kinds (both formats, symbols_only on/off, fit flag x call flag None/True/False, '
                 'generated or DataFrame-supplied input names): get_feature_names_out compared verbatim with the Lean '
@@ -329,12 +340,7 @@ def run(ctx):
             if why:
                 ctx.fail(why, c, {'kinds': sorted(pipes.kinds_in(c['spec']))})
                 return
-        for i in range(400):
-            c = st.gen_case(ctx.rng, ORACLE_KINDS, max_depth=2, cap=30, opaque=True)
-            why = oracle(c)
-            if why:
-                ctx.fail(why, c, {'kinds': sorted(pipes.kinds_in(c['spec']))})
-                return
+        population_search(ctx)
     acc = accept_cases(ctx.rng, ctx.n(40, 400))
     for (line, accepted, tag), rep in zip(acc, drv.ask([a[0] for a in acc])):
         ctx.count('accept:' + ('accepted' if accepted else 'rejected'))
